@@ -110,6 +110,7 @@ pub fn execute(scn: &Scn, opts: &ExecOpts) -> Outcome {
             kernel::note("roll", &format!("{} bytes={}", ri, model.active.len()));
             match roller.roll(&names2.active) {
                 Ok(()) => {
+                    r::wait_for_bg_rotation();
                     model.on_roll();
                     if names2.active.exists() {
                         sink2.fail("C07", "C07-I3", "rolled-file-remains", format!("roll {} returned Ok but the rolled file still exists", ri + 1));
